@@ -58,7 +58,7 @@ func NewSessionFactory(config *Config, store Metastore, kms KeyManagementService
 	}
 
 	var ikCache keyCacher
-	if config.Policy.SharedIntermediateKeyCache {
+	if config.Policy.useSharedIntermediateKeyCache() {
 		ikCache = newKeyCache(CacheTypeIntermediateKeys, config.Policy)
 		log.Debugf("new shared ikCache: %v\n", ikCache)
 	}
@@ -93,7 +93,7 @@ func (f *SessionFactory) Close() error {
 		f.sessionCache.Close()
 	}
 
-	if f.Config.Policy.SharedIntermediateKeyCache {
+	if f.Config.Policy.useSharedIntermediateKeyCache() {
 		f.intermediateKeys.Close()
 	}
 
@@ -117,7 +117,7 @@ func newSession(f *SessionFactory, id string) (*Session, error) {
 	skCache := f.systemKeys
 
 	var ikCache keyCacher
-	if f.Config.Policy.SharedIntermediateKeyCache {
+	if f.Config.Policy.useSharedIntermediateKeyCache() {
 		ikCache = f.intermediateKeys
 	} else {
 		ikCache = f.newIKCache()
